@@ -169,6 +169,17 @@ static void modeNumbers(int argc, char** argv, Rng& rng)
       numberCalls(s, dec, sci, cd);
     }
   }
+  // extreme magnitudes in the default and in non-default (separator, exponent character) styles
+  {
+    static const char ds[] = {'.', ',', ',', '.'};
+    static const char ss[] = {'e', 'E', 'e', 'd'};
+    for (size_t k = 0; k < (alt ? 4u : 1u); ++k)
+    {
+      Codec cdk = numberCodec(ds[k], ss[k]);
+      for (const auto& s : dictStyledNumbers(ds[k], ss[k]))
+        if (s.size() <= 40) numberCalls(s, ds[k], ss[k], cdk);
+    }
+  }
   // long digit strings with small exponents (values far outside int / long long)
   {
     Codec cd0 = numberCodec('.', 'e');
